@@ -38,7 +38,7 @@ REAL = ['py4hw.transpilation.python2verilog_transpilation', 'py4hw.rtl_generatio
 STUB = ['Verilog side: dsim/vsim executes the emitted text', 'random inputs (protocol-agnostic) as the environment']
 ASSUMPTIONS = ['vsim reading of IEEE 1364-2005', 'generated programs keep every intermediate value in [0, 2**31) and give every arithmetic '
                'sub-expression a 32-bit context (literal, integer variable or constructor constant)']
-PROBES = ['parameters', 'second_instance_other_constants', 'wide_ports', 'lib_block', 'random_seq', 'random_comb', 'unsupported_refused', 'unsupported_accepted_equivalent', 'state_compared', 'match_case', 'elif_chain']
+PROBES = ['generated_after_simulation', 'two_parents_same_instance_name', 'parameters', 'second_instance_other_constants', 'wide_ports', 'lib_block', 'random_seq', 'random_comb', 'unsupported_refused', 'unsupported_accepted_equivalent', 'state_compared', 'match_case', 'elif_chain']
 
 _TMP = None
 
@@ -117,6 +117,8 @@ def gen(rs, tier, index):
         if prog['consts']:
             # a second instance of the same class with other constructor constants, generated later in the same process
             scn['cargs2'] = [rng.choice([v + 1, v + 17, max(0, v - 1), min(7, v + 20), 0]) for n, v in prog['consts']]
+            # ... or both instances in one design, under different parents with the same instance name
+            scn['dual'] = rng.random() < 0.5
         ins = prog['ins']
     else:
         kinds = [k for k in sorted(progs.UNSUPPORTED) if not kf.excluded('transpile-' + k)]
@@ -142,6 +144,7 @@ def gen(rs, tier, index):
                     cur[j] = 1
         vecs.append(list(cur))
     scn['vecs'] = vecs
+    scn['presim'] = sr.choice([0, 0, 0, 2, 5]) if scn['kind'] != 'unsupported' else 0    # cycles simulated before the text is generated
     scn['vseed'] = rs.sub('vsched')
     return scn
 
@@ -162,22 +165,58 @@ def build(scn):
     for n, wd in outs:
         w[n] = hw.wire(n, wd)
         dut.addOut(n, w[n])
+    blk2 = None
     with quiet():
         if scn['kind'] == 'lib':
             blk = spec['mk'](dut, w)
+        elif scn.get('dual') and scn.get('cargs2') is not None:
+            # two parents, one instance name, different constructor constants
+            cls = load_class(scn['prog']['src'], scn['prog']['cls'])
+            blks = []
+            for gi, cargs in enumerate((scn['cargs'], scn['cargs2'])):
+                g = Dut(dut, 'g%d' % gi)
+                gouts = []
+                for n, wd in ins:
+                    g.addIn(n, w[n])
+                for n, wd in outs:
+                    if gi == 0:
+                        ow_ = w[n]
+                    else:
+                        ow_ = hw.wire(n + '_b', wd)
+                        dut.addOut(n + '_b', ow_)
+                        w[n + '_b'] = ow_
+                    g.addOut(n, ow_)
+                    gouts.append(ow_)
+                blks.append(cls(g, 'blk', *([w[n] for n, _ in ins] + gouts + list(cargs))))
+            blk, blk2 = blks
         else:
             cls = load_class(scn['prog']['src'], scn['prog']['cls'])
             args = [w[n] for n, _ in ins] + [w[n] for n, _ in outs] + list(scn.get('cargs', []))
             blk = cls(dut, 'blk', *args)
+    build.second = blk2
     return hw, dut, blk, w, ins, outs, state
 
 
 def cosim(scn, log, st, zero_powerup=False):
     """returns None (agree), ('refused', exc), ('illegal', detail) or ('mismatch', step, what, detail)"""
     hw, dut, blk, w, ins, outs, state = build(scn)
+    blk2 = build.second
+    gen_dut = dut
+    if scn.get('presim'):
+        # the instance the text is generated from has been simulated for a few cycles; the text must still describe the
+        # block from power-up, so the Python side of the comparison is a second, fresh instance
+        with quiet():
+            psim = hw.getSimulator()
+            for vec in scn['vecs'][:scn['presim']]:
+                for (n, wd), v in zip(ins, vec):
+                    w[n].put(v)
+                psim.clk(1)
+        st.probe('generated_after_simulation')
+        hw, dut, blk, w, ins, outs, state = build(scn)
+        blk2 = build.second
     try:
         with quiet():
-            text = py4hw.VerilogGenerator(dut).getVerilogForHierarchy()
+            text = py4hw.VerilogGenerator(gen_dut).getVerilogForHierarchy()
     except Exception as e:
         return ('refused', '%s: %s' % (type(e).__name__, str(e)[:200]))
     try:
@@ -199,7 +238,10 @@ def cosim(scn, log, st, zero_powerup=False):
     seen = set()
     is_seq = blk.isClockable()
     names = design.signal_names() if hasattr(design, 'signal_names') else []
-    svars = [s for s in state if ('i_blk.' + s) in names] if is_seq else []
+    pfx = 'i_g0.i_blk.' if blk2 is not None else 'i_blk.'
+    svars = [s for s in state if (pfx + s) in names] if is_seq else []
+    if blk2 is not None:
+        st.probe('two_parents_same_instance_name')
 
     class DomainExit(Exception):
         pass
@@ -217,9 +259,16 @@ def cosim(scn, log, st, zero_powerup=False):
             seen.add((n, pv))
             if xm or vv != pv:
                 return ('mismatch', step, 'output', 'cycle %d output %s: Python %#x, Verilog %s' % (step, n, pv, '%#x' % vv if not xm else 'x (value %#x mask %#x)' % (vv, xm)))
+        if blk2 is not None:
+            for n, wd in outs:
+                pv = w[n + '_b'].get()
+                vv, xm = vs.get(n + '_b')
+                if xm or vv != pv:
+                    return ('mismatch', step, 'output', 'cycle %d output %s of the second instance (constants %s): Python %#x, Verilog %s' % (
+                        step, n, scn['cargs2'], pv, '%#x' % vv if not xm else 'x'))
         for s in svars:
             pv = getattr(blk, s)
-            vv, xm = vs.peek('i_blk.' + s)
+            vv, xm = vs.peek(pfx + s)
             seen.add((s, pv))
             st.probe('state_compared')
             if xm or (vv & 0xFFFFFFFF) != (pv & 0xFFFFFFFF):
@@ -275,7 +324,7 @@ def run(scn, log, st):
             if 'elif ' in scn['prog']['src']:
                 st.probe('elif_chain')
     m = cosim(scn, log, st)
-    if m is None and scn.get('cargs2') is not None and scn['cargs2'] != scn['cargs']:
+    if m is None and scn.get('cargs2') is not None and scn['cargs2'] != scn['cargs'] and not scn.get('dual'):
         st.probe('second_instance_other_constants')
         m = cosim(dict(scn, cargs=scn['cargs2']), log, st)
         if m is not None and m[0] == 'mismatch':
